@@ -18,6 +18,8 @@ func checkC18(c *Ctx) {
 	c.Rule("C18-R3", "simscreen painter: dirty gate, clean after write, Sync = clear + Invalidate before draw, wide rune in the last column shown blank, four-sided cursor visibility test")
 	c.Rule("C18-R4", "the simulation decides 'not encodable' from the same observations as the terminfo screen (zero-length output, SUB first byte) and gives the encoder a destination of constant size >= 4")
 	c.Expect("C18-R4", 2)
+	c.Rule("C18-R5", "HideCursor moves the requested cursor position off-screen, so GetCursor keeps reporting a hidden cursor after the next Show or Sync")
+	c.Expect("C18-R5", 1)
 	c.Expect("C18-R1", 2)
 	c.Expect("C18-R2", 2)
 	c.Expect("C18-R3", 6)
@@ -63,6 +65,7 @@ func checkC18(c *Ctx) {
 	}
 	checkDirtyGate(c, p, dc, "C18-R3", isSimEmission, 2)
 	checkEncodeDst(c, p, dc, "C18-R4")
+	checkHideCursor(c, p, "C18-R5", "simscreen")
 	sa := encPredAtoms(dc)
 	c.Check(sa["T#0 == 0"] && sa["out[0] == 26"], "C18-R4", "(*simscreen).drawCell:failure-predicate", p.pos(dc.Pos()),
 		fmt.Sprintf("conditions on the encoder's results: %v (the terminfo screen falls back on zero length and on a SUB first byte; so must its test double)", sortedKeys(sa)))
